@@ -192,26 +192,46 @@ def rule_coverage(ctx) -> None:
         raise AnalysisError("C07.signed-coverage: segment_blocks literal not found")
     groups = [[norm(x).split(".")[-1] for x in g.elts] for g in lit.elts]
     named = [m for g in groups for m in g]
+    # block constructions: either through the local closure add_block(offset, size) or directly ImageBlock(base_address=.., start=.., size=..)
+    def blocks_in(fn_node: ast.AST, stmts) -> List[Tuple[str, str, str, str]]:
+        out = []
+        closure = [n for n in ast.walk(fn_node) if isinstance(n, ast.FunctionDef) and n.name == "add_block"]
+        for st in stmts:
+            for c in ast.walk(st):
+                if not isinstance(c, ast.Call):
+                    continue
+                if A.call_name(c) == "ImageBlock" and not any(c is x for cl in closure for x in ast.walk(cl)):
+                    kw = {k.arg: norm(A.inline_locals(fn_node, k.value, keep=("segment", "block_size"))) for k in c.keywords}
+                    out.append(("direct", kw.get("base_address", ""), kw.get("start", ""), kw.get("size", "")))
+                elif isinstance(c.func, ast.Name) and c.func.id == "add_block" and closure and len(c.args) == 2:
+                    ib = [x for x in ast.walk(closure[0]) if isinstance(x, ast.Call) and A.call_name(x) == "ImageBlock"]
+                    if len(ib) == 1:
+                        ps = [a.arg for a in closure[0].args.args]
+                        m = {ps[0]: c.args[0], ps[1]: c.args[1]}
+                        kw = {k.arg: norm(A.subst(k.value, m)) for k in ib[0].keywords}
+                        out.append(("closure", kw.get("base_address", ""), kw.get("start", ""), kw.get("size", "")))
+        return out
+
+    def good(b, off: str, size: str) -> bool:
+        return b[1] == f"self.start_address + self.ivt_offset + {off}" and b[2] == f"self.ivt_offset + {off}" and b[3] == size
     app_if = [s for s in A.body_of(sb.node) if isinstance(s, ast.If) and norm(s.test) == "not self.is_encrypted"]
-    app_ok = len(app_if) == 1 and [norm(x) for x in app_if[0].body] == ["add_block(self.app_segment.offset, self.app_segment.size)"] and not app_if[0].orelse
+    app_blocks = blocks_in(sb.node, app_if[0].body) if len(app_if) == 1 else []
+    app_ok = len(app_if) == 1 and not app_if[0].orelse and len(app_blocks) == 1 and good(app_blocks[0], "self.app_segment.offset", "self.app_segment.size")
     missing = [m for m in members if m not in named and m not in ("CSF", "APP")]
     chk.decide(not missing and app_ok and groups[0] == ["IVT", "BDT"] and len(set(named)) == len(named), "C07.signed-coverage", sb.qual,
-               f"signed blocks name every segment kind except the CSF itself: {groups} + APP when the image is not encrypted", f"not covered: {missing}; APP rule ok: {app_ok}; groups {groups}", "", A.loc(HC, sb.node))
-    ab = [n for n in ast.walk(sb.node) if isinstance(n, ast.FunctionDef) and n.name == "add_block"]
-    ib = [c for c in ast.walk(ab[0]) if isinstance(c, ast.Call) and A.call_name(c) == "ImageBlock"] if ab else []
-    kws = {k.arg: norm(k.value) for k in ib[0].keywords} if ib else {}
-    chk.decide(kws == {"base_address": "self.start_address + self.ivt_offset + offset", "start": "self.ivt_offset + offset", "size": "block_size"}, "C07.signed-coverage", sb.qual + " block",
-               "block address = start address + IVT offset + segment offset; index into the padded image = IVT offset + segment offset", f"{kws}", "", A.loc(HC, sb.node))
+               f"signed blocks name every segment kind except the CSF itself: {groups} + APP when the image is not encrypted", f"not covered: {missing}; APP rule ok: {app_ok} ({app_blocks}); groups {groups}", "", A.loc(HC, sb.node))
     loop = [s for s in A.body_of(sb.node) if isinstance(s, ast.For)]
+    lb = blocks_in(sb.node, loop[0].body) if loop else []
+    chk.decide(len(lb) == 1 and good(lb[0], "segment.offset", "block_size"), "C07.signed-coverage", sb.qual + " block",
+               "block address = start address + IVT offset + segment offset; index into the padded image = IVT offset + segment offset", f"{lb}", "", A.loc(HC, sb.node))
     t = norm(loop[0]) if loop else ""
-    ok = "block_size = sum([self.get_segment(seg_name).size for seg_name in segments_names if self.segments.contains(seg_name)])" in t and "segment = self.get_segment(segments_names[0])" in t and "add_block(segment.offset, block_size)" in t \
+    ok = "block_size = sum([self.get_segment(seg_name).size for seg_name in segments_names if self.segments.contains(seg_name)])" in t and "segment = self.get_segment(segments_names[0])" in t \
         and "all_defined = all([self.get_segment(seg_name) for seg_name in segments_names])" in t
     chk.decide(ok, "C07.signed-coverage", sb.qual + " group", "a group is one block: from the first segment's offset, as long as the sum of the segments' sizes, only when all are present", t[:300], "", A.loc(HC, sb.node))
     eb = ctx.own(HC, "HabContainer", "_get_encrypted_blocks")
-    ib = [c for c in A.calls_in(eb.node, "ImageBlock")]
-    kws = {k.arg: norm(k.value) for k in ib[0].keywords} if len(ib) == 1 else {}
-    chk.decide(kws == {"base_address": "self.start_address + self.ivt_offset + self.app_segment.offset", "start": "self.ivt_offset + self.app_segment.offset", "size": "self.app_segment.size"}, "C07.signed-coverage", eb.qual,
-               "the encrypted block is the whole application segment", f"{kws}", "", A.loc(HC, eb.node))
+    ebl = blocks_in(eb.node, A.body_of(eb.node))
+    chk.decide(len(ebl) == 1 and good(ebl[0], "self.app_segment.offset", "self.app_segment.size"), "C07.signed-coverage", eb.qual,
+               "the encrypted block is the whole application segment", f"{ebl}", "", A.loc(HC, eb.node))
     # padded export puts each segment at ivt_offset + offset: the index the blocks use
     ii = ctx.own(HC, "HabContainer", "image_info")
     off = [s.value for s in ast.walk(ii.node) if isinstance(s, ast.Assign) and norm(s.targets[0]) == "offset"]
@@ -487,15 +507,27 @@ def rule_srk(ctx) -> None:
     t = norm(pa.node)
     ok = tb == ["self.coordinate_size", "self.coordinate_size"] and "x_coordinate = data[offset:offset + coordinate_size]" in t and "y_coordinate = data[offset:offset + coordinate_size]" in t and "offset += coordinate_size" in t
     chk.decide(ok, "C07.srk", f"{SEC}::SrkItemEcc x/y windows", "x then y, each one coordinate wide, on both sides", f"export widths {tb}", "", A.loc(SEC, ex.node))
+    from ..engines import bytelayout
     ef = ctx.own(SEC, "SrkTable", "export_fuses")
-    t = norm(ef.node)
-    chk.decide("for srk in self._keys: data += srk.sha256()" in t.replace("\n", " ").replace("    ", "") and "return sha256(data).digest()" in t, "C07.srk", ef.qual, "fuse value = SHA-256 over the concatenated SHA-256 digests of every SRK item in table order", t[:200], "", A.loc(SEC, ef.node))
+    fold = lambda e: ctx.prog.fold(e, ef.module, ef.cls)  # noqa: E731
+    rets = A.returns_in(ef.node)
+    hashed = None
+    if len(rets) == 1 and isinstance(rets[0].value, ast.Call) and norm(rets[0].value.func).endswith(".digest") and isinstance(rets[0].value.func.value, ast.Call) \
+            and norm(rets[0].value.func.value.func) == "sha256" and len(rets[0].value.func.value.args) == 1:
+        hashed = bytelayout.normal_form(fold, ef.node, rets[0].value.func.value.args[0])
+    chk.decide(hashed == [(None, "repeat", "_.sha256() for _ in self._keys")], "C07.srk", ef.qual, "fuse value = SHA-256 over the concatenated SHA-256 digests of every SRK item in table order (however the bytes are assembled)",
+               f"hashed bytes layout {hashed}", "sha256(concatenation of srk.sha256() for srk in self._keys).digest()", A.loc(SEC, ef.node))
     for cn in ("SrkItemRSA", "SrkItemEcc"):
         f = ctx.own(SEC, cn, "sha256")
-        chk.decide("srk_data = self.export()" in norm(f.node) and "return sha256(srk_data).digest()" in norm(f.node), "C07.srk", f.qual, "item digest = SHA-256 of the exported item", "", "", A.loc(SEC, f.node))
+        r = A.returns_in(f.node)
+        arg = r[0].value.func.value.args[0] if (len(r) == 1 and isinstance(r[0].value, ast.Call) and isinstance(r[0].value.func, ast.Attribute) and isinstance(r[0].value.func.value, ast.Call) and r[0].value.func.value.args) else None
+        src = norm(A.inline_locals(f.node, arg)) if arg is not None else None
+        chk.decide(src == "self.export()" and norm(r[0].value.func.value.func) == "sha256", "C07.srk", f.qual, "item digest = SHA-256 of the exported item", f"{src}", "", A.loc(SEC, f.node))
     ex = ctx.own(SEC, "SrkTable", "export")
+    lay = bytelayout.normal_form(lambda e: ctx.prog.fold(e, ex.module, ex.cls), ex.node)
     t = norm(ex.node)
-    chk.decide("self._header.length = self.size" in t and "raw_data = self._header.export()" in t and "raw_data += srk.export()" in t, "C07.srk", ex.qual, "table = header (length = total size) followed by every item", "", "", A.loc(SEC, ex.node))
+    chk.decide("self._header.length = self.size" in t and lay == [(None, "bytes", "self._header.export()"), (None, "repeat", "_.export() for _ in self._keys")], "C07.srk", ex.qual,
+               "table = header (length = total size) followed by every item", f"layout {lay}", "", A.loc(SEC, ex.node))
     pa = ctx.own(SEC, "SrkTable", "parse")
     t = norm(pa.node)
     chk.decide("length = header.length - Header.SIZE" in t and "offset += srk.size" in t and "length -= srk.size" in t and "while length > 0:" in t, "C07.srk", pa.qual, "items are parsed back to back until the header's length is consumed", "", "", A.loc(SEC, pa.node))
